@@ -87,6 +87,23 @@ type exec struct {
 	reconciles int
 	errors     int
 	requeues   int
+	switchN    int // position in the rotation of user edits of xr-switch
+}
+
+// xr-switch is an XR whose update policy and revision selector the user edits between the
+// steps of the history: the reference must follow the edited spec (to a lower-numbered
+// revision too, if that is the highest one the new selector admits).
+const xrSwitch = "xr-switch"
+
+var switchCombos = []xrSpec{
+	{Policy: "Automatic"},
+	{Policy: "Automatic", Selector: map[string]string{"channel": "stable"}},
+	{Policy: "Automatic", Selector: map[string]string{"channel": "beta"}},
+	{Policy: "Automatic"},
+	{Policy: "Manual"},
+	{Policy: "Automatic", Selector: map[string]string{"channel": "beta"}},
+	{Policy: "Manual", Selector: map[string]string{"channel": "stable"}},
+	{Policy: "Automatic", Selector: map[string]string{"channel": "stable"}},
 }
 
 func newExec(c *kit.Ctx, coll *collector, h *history, w *sim.World, m *monitor) *exec {
@@ -101,6 +118,7 @@ func newExec(c *kit.Ctx, coll *collector, h *history, w *sim.World, m *monitor) 
 func (e *exec) fork() *exec {
 	n := newExec(e.c, e.coll, e.h, e.w.Clone(), e.m.clone())
 	n.trace = append(n.trace, e.trace...)
+	n.switchN = e.switchN
 	return n
 }
 
@@ -117,7 +135,7 @@ func buildWorld(h *history, seed uint64) *sim.World {
 			"ownerReferences": []any{map[string]any{"apiVersion": "apiextensions.crossplane.io/v1", "kind": "Composition", "name": otherCompName,
 				"uid": sim.Str(other, "metadata", "uid"), "controller": true, "blockOwnerDeletion": true}}},
 		"spec": with(specPool()[1], "revision", int64(50))})
-	for _, x := range xrs {
+	for _, x := range append(append([]xrSpec{}, xrs...), xrSpec{Name: xrSwitch, Policy: "Automatic"}) {
 		spec := map[string]any{"compositionRef": map[string]any{"name": compName}, "compositionUpdatePolicy": x.Policy}
 		if x.Selector != nil {
 			ml := map[string]any{}
@@ -431,6 +449,9 @@ func (e *exec) fetch(x xrSpec, k int, out sim.Outcome, label string) (calls int)
 		if out == sim.OK && err == nil && rev != nil && rev.GetName() != before {
 			e.m.add("O5-manual-fetch-returned-other-revision", what("fetcher returned "+rev.GetName()))
 		}
+		if after != before {
+			e.m.add("O5-manual-reference-moved", what("a Manual XR's revision reference was changed by the fetch"))
+		}
 	case x.Policy == "Manual":
 		// first selection of a Manual XR: the property only says that it keeps what it has
 		if err == nil && out == sim.OK {
@@ -491,6 +512,26 @@ func (e *exec) xrPoint(label string, enumerate bool) {
 			}
 		}
 		e.fetch(x, 0, sim.OK, label)
+	}
+	// the user edits xr-switch's policy / selector, then its controller fetches
+	e.switchN++
+	combo := switchCombos[e.switchN%len(switchCombos)]
+	combo.Name = xrSwitch
+	if o := e.w.GetObj(xrKey(xrSwitch)); o != nil {
+		u := &unstructured.Unstructured{Object: o}
+		_ = unstructured.SetNestedField(u.Object, combo.Policy, "spec", "compositionUpdatePolicy")
+		unstructured.RemoveNestedField(u.Object, "spec", "compositionRevisionSelector")
+		if combo.Selector != nil {
+			ml := map[string]any{}
+			for k, v := range combo.Selector {
+				ml[k] = v
+			}
+			_ = unstructured.SetNestedMap(u.Object, map[string]any{"matchLabels": ml}, "spec", "compositionRevisionSelector")
+		}
+		must(e.user.Update(ctx, u), "user edit of xr-switch")
+		e.c.Count("xr_switch_edits", 1)
+		e.fetch(combo, 0, sim.OK, label+" after the user set policy/selector of xr-switch")
+		e.fetch(combo, 0, sim.OK, label+" second fetch of xr-switch")
 	}
 }
 
